@@ -196,6 +196,9 @@ class SimulatorWorkerThread(Thread):
         while not self._finalized:
             # wait till wakeup, e.g., to start the simulation
             self.__wakeup_flag.wait()
+            # (cleared here and not after the work: a wake-up that arrives 
+            # while the work is being done must not be lost)
+            self.__wakeup_flag.clear()
             self._running = True
             if not self._finalized:
                 if self._job._replication_state != ReplicationState.ENDING:
@@ -223,13 +226,16 @@ class SimulatorWorkerThread(Thread):
                         print("Simulator run interrupted by exception:")
                         print(str(e))
                         traceback.print_exc()
-                if self._job._replication_state == ReplicationState.ENDING:
-                    self._job._replication_state = ReplicationState.ENDED
-                    self._job._run_state = RunState.ENDED
+                with self._job._state_lock:
+                    ending: bool = (self._job._replication_state 
+                                    == ReplicationState.ENDING)
+                    if ending:
+                        self._job._replication_state = ReplicationState.ENDED
+                        self._job._run_state = RunState.ENDED
+                if ending:
                     self._job.fire_timed(self._job.simulator_time,
                         ReplicationInterface.END_REPLICATION_EVENT, None)
                     self._finalized = True
-            self.__wakeup_flag.clear()
             self._running = False
         # end while
     # end run()
@@ -264,6 +270,8 @@ class Simulator(EventProducer, SimulatorInterface, Generic[TIME]):
         # stop() and the worker thread have to agree (never held while 
         # listeners are notified)
         self._state_lock = threading.Lock()
+        # end_replication() called by another thread while the run is on
+        self._end_requested: bool = False
         self.__worker: Thread = None
         self._initial_time = initial_time
         self._initial_methods: list[SimEventInterface] = []
@@ -321,6 +329,7 @@ class Simulator(EventProducer, SimulatorInterface, Generic[TIME]):
         self._model = model
         self._simulator_time = replication.start_sim_time
         self._time_announced = True
+        self._end_requested = False
         # the statistics of a previous replication are rebuilt (and 
         # registered again under their keys) by construct_model 
         model.output_statistics().clear()
@@ -543,12 +552,21 @@ class Simulator(EventProducer, SimulatorInterface, Generic[TIME]):
         return self._replication_state
 
     def end_replication(self):
-        if (self.__worker is None or self._replication_state in (
-                ReplicationState.NOT_INITIALIZED, ReplicationState.ENDING,
-                ReplicationState.ENDED)):
-            raise DSOLError("cannot end a replication that has not been " + 
-                            "initialized or that has already ended")
-        self._replication_state = ReplicationState.ENDING
+        with self._state_lock:
+            # test and transition in one step: the worker thread may be 
+            # ending the replication by itself
+            if (self.__worker is None or self._replication_state in (
+                    ReplicationState.NOT_INITIALIZED, 
+                    ReplicationState.ENDING, ReplicationState.ENDED)):
+                raise DSOLError("cannot end a replication that has not " + 
+                        "been initialized or that has already ended")
+            if (self.is_starting_or_running() 
+                    and threading.current_thread() is not self.__worker):
+                # the worker thread is executing events: it ends the
+                # replication itself, before it takes the next event
+                self._end_requested = True
+                return
+            self._replication_state = ReplicationState.ENDING
         self.__worker.wakeup()  # just to be sure
         if self._simulator_time < self._replication.end_sim_time:
             print("warning: end_replication called with simtime < runlength")
@@ -671,7 +689,8 @@ class DEVSSimulator(Simulator[TIME], Generic[TIME]):
 
     def end_replication(self):
         super().end_replication()
-        self.eventlist().clear()
+        if not self._end_requested:
+            self.eventlist().clear()
         
     def _run(self):
         self._runflag = True
@@ -683,6 +702,10 @@ class DEVSSimulator(Simulator[TIME], Generic[TIME]):
             until = end_time
             including = True
         while not self.is_stopping_or_stopped():
+            if self._end_requested:
+                # asked for by another thread while an event was executing
+                self._end_requested = False
+                self.end_replication()
             # check if we are done
             if self.eventlist().is_empty():
                 t = until
